@@ -15,6 +15,145 @@ def _map_call(name, meth):
     return name in tuple("%s::%s" % (a, meth) for a in MAP_ADTS)
 
 
+class Arm:
+    """where the mechanism of an element-opening event arm lives: inline in the event loop, or in one crate
+    helper the arm delegates to (the helper then receives the current element, the event, the seen list and -
+    for Start - the reader, and its Ok value becomes the current element)"""
+
+    def __init__(self, R, v):
+        self.R = R
+        self.v = v
+        ev = R.ev
+        el = R.el
+        self.problems = []
+        self.via = None
+        self.body = el
+        self.blocks = ev.exclusive(v)
+        self.param = None
+        lib = R.lib
+        calls = [c for c in ev.calls(v) if c.node["callee"].get("local") and c.node["callee"].get("path") in lib.bodies]
+        direct_tp = [c for c in calls if c.node["callee"]["path"] == R.tp.name]
+        if direct_tp:
+            return
+        # delegation: exactly one crate call taking the element by value and returning Result<Element, _>
+        cands = []
+        for c in calls:
+            f = lib.fns.get(c.node["callee"]["path"], {})
+            if any(t.get("adt") == "element::Element" and t.get("refs") == 0 for t in f.get("inputs", [])) and f.get("output", {}).get("adt") == "std::result::Result":
+                cands.append(c)
+        if len(cands) != 1:
+            self.problems.append("%s arm neither calls the tag parser nor delegates to exactly one helper" % v)
+            return
+        h = cands[0]
+        hb = lib.bodies[h.node["callee"]["path"]]
+        f = lib.fns[hb.name]
+        par = {}
+        for i, t in enumerate(f["inputs"]):
+            st = t.get("s", "")
+            if t.get("adt") == "element::Element" and t.get("refs") == 0:
+                par["root"] = i + 1
+            elif "BytesStart" in st:
+                par["event"] = i + 1
+            elif st.startswith("&mut std::vec::Vec<std::string::String>"):
+                par["seen"] = i + 1
+            elif "quick_xml::Reader<" in st:
+                par["reader"] = i + 1
+        if not {"root", "event", "seen"} <= set(par):
+            self.problems.append("%s arm delegates to %s, whose parameters are not (element, event, seen list[, reader])" % (v, hb.name))
+            return
+        # the hand-over at the event-loop level
+        a = {k: strip(term_of(el, h.node["args"][i - 1])) for k, i in par.items()}
+        if not _is_root(R, a["root"]):
+            self.problems.append("%s arm hands %s (not the current element) to %s" % (v, term_s(a["root"]), hb.name))
+        if not _same_event(R, a["event"], v):
+            self.problems.append("%s arm hands a different event to %s" % (v, hb.name))
+        if "reader" in par and not _is_reader(R, a["reader"]):
+            self.problems.append("%s arm hands a different reader to %s" % (v, hb.name))
+        if not _result_becomes_root(R, h):
+            self.problems.append("%s arm does not store the Ok value of %s back into the current element" % (v, hb.name))
+        self.via = h
+        self.body = hb
+        self.blocks = set(hb.reachable())
+        self.param = par
+        self.el_seen = a["seen"]
+
+    # -- predicates on terms of self.body
+    def is_root(self, t):
+        if self.via is None:
+            return _is_root(self.R, t)
+        return t in (("arg", self.param["root"]), ("local", self.param["root"]))
+
+    def is_event(self, t):
+        t = strip(t)
+        if self.via is None:
+            return _same_event(self.R, t, self.v)
+        return t in (("arg", self.param["event"]), ("local", self.param["event"]))
+
+    def is_reader(self, t):
+        if self.via is None:
+            return _is_reader(self.R, t)
+        return "reader" in self.param and strip(t) == ("arg", self.param["reader"])
+
+    def stores_back(self, call):
+        """`?`-propagated and the Continue payload assigned to the element variable (which the helper returns)"""
+        b = self.body
+        if self.via is None:
+            return _result_becomes_root(self.R, call)
+        rl = self.param["root"]
+        for s in b.assigns():
+            if s.node["place"]["l"] == rl and not s.node["place"]["p"] and s.node["rv"]["k"] == "use":
+                org = b.origins(s.node["rv"]["op"], transparent=lambda n: cname(n) == "std::ops::Try::branch")
+                if ("call", call) in org:
+                    return True
+        # or returned directly: Ok(f(..)?) / f(..)
+        for s in b.assigns():
+            if s.node["place"]["l"] == 0 and s.node["rv"]["k"] == "agg" and s.node["rv"].get("variant") == "Ok":
+                if ("call", call) in b.origins(s.node["rv"]["ops"][0], transparent=lambda n: cname(n) == "std::ops::Try::branch"):
+                    return True
+        if call.node["dest"]["l"] == 0:
+            return True
+        return False
+
+    def returns_root(self):
+        if self.via is None:
+            return True
+        b = self.body
+        oks = [s for s in b.assigns() if s.node["place"]["l"] == 0 and s.node["rv"]["k"] == "agg" and s.node["rv"].get("variant") == "Ok"]
+        return all(self.is_root(strip(term_of(b, s.node["rv"]["ops"][0]))) or s.node["rv"]["ops"] and
+                   any(o[0] == "call" for o in b.origins(s.node["rv"]["ops"][0], transparent=lambda n: cname(n) == "std::ops::Try::branch")) for s in oks)
+
+    def seen_at_loop_level(self, tp_call):
+        """term of the seen list as seen in the event loop body"""
+        if self.via is None:
+            return strip(term_of(self.body, tp_call.node["args"][self.R.tp_param["seen"] - 1]))
+        return self.el_seen
+
+    def seen_is_forwarded(self, tp_call):
+        if self.via is None:
+            return True
+        t = strip(term_of(self.body, tp_call.node["args"][self.R.tp_param["seen"] - 1]))
+        return t == ("arg", self.param["seen"])
+
+    def event_name_of(self, t):
+        """t == to_str(event.name()) for this arm's event (through `?`)"""
+        b = self.body
+        for st in mir.subterms(strip(t, mir.VALUE_PRESERVING)):
+            if st[0] == "call" and st[1] == "quick_xml::events::BytesStart::name":
+                return self.is_event(st[2][0])
+        tt = strip(t, mir.VALUE_PRESERVING)
+        if tt[0] == "local":
+            for d in b.defs().get(tt[1], []):
+                if d.si is not None and d.node["k"] == "assign" and d.node["rv"]["k"] == "use":
+                    t2 = term_of(b, d.node["rv"]["op"])
+                    if any(st[0] == "call" and st[1] == "quick_xml::events::BytesStart::name" and self.is_event(st[2][0]) for st in mir.subterms(t2)):
+                        return True
+        return False
+
+    def calls_to(self, path):
+        b = self.body
+        return [c for c in b.calls() if c.bb in self.blocks and c.node["callee"].get("path") == path]
+
+
 class Roles:
     def __init__(self, lib):
         self.lib = lib
@@ -29,36 +168,6 @@ class Roles:
             self.problems.append("expected one tag parser (body reading BytesStart::attributes), found %d" % len(tps))
             return
         self.tp = tps[0]
-        ev = self.ev
-
-        def local_calls(v):
-            return [c for c in ev.calls(v) if c.node["callee"].get("local") and c.node["callee"].get("path") in lib.bodies]
-        s_calls = {c.node["callee"]["path"] for c in local_calls("Start")}
-        e_calls = {c.node["callee"]["path"] for c in local_calls("Empty")}
-        helper = {"parser::to_str"}
-        both = (s_calls & e_calls) - {self.tp.name} - helper
-        both = {p for p in both if lib.fns.get(p, {}).get("output", {}).get("adt") == "std::result::Result" or True}
-        both = {p for p in both if not _is_pure_helper(lib, p)}
-        if len(both) != 1:
-            self.problems.append("expected one demotion step called in both the Start and Empty arms, found %s" % sorted(both))
-            return
-        self.ds = lib.bodies[next(iter(both))]
-        # snapshot fn: local call in the Start arm, not in Empty, whose argument derives from get_child
-        sn = []
-        for c in local_calls("Start"):
-            p = c.node["callee"]["path"]
-            if p in (self.tp.name, self.ds.name) or p in e_calls:
-                continue
-            t = [strip(term_of(self.el, a)) for a in c.node["args"]]
-            if any(x[0] == "call" and x[1].endswith("Element::get_child") for x in t):
-                sn.append(c)
-        if len(sn) != 1:
-            self.problems.append("expected one snapshot call (argument = get_child(name)) in the Start arm, found %d" % len(sn))
-            return
-        self.sn_call = sn[0]
-        self.sn = lib.bodies[sn[0].node["callee"]["path"]]
-        self.tp_calls = {v: [c for c in ev.calls(v) if c.node["callee"].get("path") == self.tp.name] for v in ("Start", "Empty")}
-        self.ds_calls = {v: [c for c in ev.calls(v) if c.node["callee"].get("path") == self.ds.name] for v in ("Start", "Empty")}
         # parameter roles of the tag parser by type
         f = lib.fns[self.tp.name]
         self.tp_param = {}
@@ -74,6 +183,46 @@ class Roles:
                 self.tp_param["reader"] = i + 1
         if set(self.tp_param) != {"root", "event", "seen", "reader"}:
             self.problems.append("tag parser parameters not recognised: %s" % self.tp_param)
+            return
+        self.arm = {}
+        for v in ("Start", "Empty"):
+            if v not in self.ev.variants:
+                self.problems.append("no %s event kind" % v)
+                return
+            self.arm[v] = Arm(self, v)
+            self.problems += self.arm[v].problems
+        if self.problems:
+            return
+
+        def local_calls(v):
+            A = self.arm[v]
+            return [c for c in A.body.calls() if c.bb in A.blocks and c.node["callee"].get("local") and c.node["callee"].get("path") in lib.bodies]
+        s_calls = {c.node["callee"]["path"] for c in local_calls("Start")}
+        e_calls = {c.node["callee"]["path"] for c in local_calls("Empty")}
+        helper = {"parser::to_str"}
+        both = (s_calls & e_calls) - {self.tp.name} - helper
+        both = {p for p in both if not _is_pure_helper(lib, p)}
+        if len(both) != 1:
+            self.problems.append("expected one demotion step called in both the Start and Empty arms, found %s" % sorted(both))
+            return
+        self.ds = lib.bodies[next(iter(both))]
+        # snapshot fn: local call in the Start arm, not in Empty, whose argument derives from get_child
+        sn = []
+        A = self.arm["Start"]
+        for c in local_calls("Start"):
+            p = c.node["callee"]["path"]
+            if p in (self.tp.name, self.ds.name) or p in e_calls:
+                continue
+            t = [strip(term_of(A.body, a)) for a in c.node["args"]]
+            if any(x[0] == "call" and x[1].endswith("Element::get_child") for x in t):
+                sn.append(c)
+        if len(sn) != 1:
+            self.problems.append("expected one snapshot call (argument = get_child(name)) in the Start arm, found %d" % len(sn))
+            return
+        self.sn_call = sn[0]
+        self.sn = lib.bodies[sn[0].node["callee"]["path"]]
+        self.tp_calls = {v: self.arm[v].calls_to(self.tp.name) for v in ("Start", "Empty")}
+        self.ds_calls = {v: self.arm[v].calls_to(self.ds.name) for v in ("Start", "Empty")}
 
     @property
     def ok(self):
@@ -194,33 +343,30 @@ def _sets_text(R, v):
 
 def pm2_open_arms(r, R):
     """Start passes Some(reader), Empty passes None; same root, same seen list, same event"""
-    ev = R.ev
-    b = ev.body
     P = ("C01", "C03", "C11")
     if len(R.tp_calls["Start"]) != 1 or len(R.tp_calls["Empty"]) != 1:
         return
     cs, ce = R.tp_calls["Start"][0], R.tp_calls["Empty"][0]
+    As, Ae = R.arm["Start"], R.arm["Empty"]
     pr = R.tp_param
-    a_s = {k: strip(term_of(b, cs.node["args"][i - 1])) for k, i in pr.items()}
-    a_e = {k: strip(term_of(b, ce.node["args"][i - 1])) for k, i in pr.items()}
-    ok = a_s["reader"][0] == "agg" and a_s["reader"][2] == "Some" and _is_reader(R, list(a_s["reader"][3].values())[0])
+    a_s = {k: strip(term_of(As.body, cs.node["args"][i - 1])) for k, i in pr.items()}
+    a_e = {k: strip(term_of(Ae.body, ce.node["args"][i - 1])) for k, i in pr.items()}
+    ok = a_s["reader"][0] == "agg" and a_s["reader"][2] == "Some" and As.is_reader(list(a_s["reader"][3].values())[0])
     ob(r, "PM2.start-descends", P, "Start arm", ok, "passes Some(the loop's reader): the element's content is parsed into the child" if ok else
        "Start arm passes %s as reader" % term_s(a_s["reader"])[:60], cs, "PM2|start-reader")
     ok = a_e["reader"][0] == "agg" and a_e["reader"][2] == "None"
     ob(r, "PM2.empty-does-not-descend", P, "Empty arm", ok, "passes no reader: nothing is consumed for an empty element" if ok else
        "Empty arm passes %s as reader" % term_s(a_e["reader"])[:60], ce, "PM2|empty-reader")
-    same_seen = a_s["seen"] == a_e["seen"] and a_s["seen"][0] in ("local", "call")
+    ls, le = As.seen_at_loop_level(cs), Ae.seen_at_loop_level(ce)
+    same_seen = ls == le and ls[0] in ("local", "call") and As.seen_is_forwarded(cs) and Ae.seen_is_forwarded(ce)
     ob(r, "PM2.same-seen-list", P, "Start/Empty arms", same_seen, "both arms pass the same per-activation list of seen names" if same_seen else
-       "seen-list arguments differ: %s vs %s" % (term_s(a_s["seen"]), term_s(a_e["seen"])), cs, "PM2|seen")
-    for v, a, c in (("Start", a_s, cs), ("Empty", a_e, ce)):
-        okr = _is_root(R, a["root"])
+       "seen-list arguments differ: %s vs %s" % (term_s(ls), term_s(le)), cs, "PM2|seen")
+    for v, a, c, A in (("Start", a_s, cs, As), ("Empty", a_e, ce, Ae)):
+        okr = A.is_root(a["root"])
         ob(r, "PM2.parses-into-current", P, "%s arm" % v, okr, "tag parser receives the current element" if okr else "tag parser receives %s" % term_s(a["root"]), c, "PM2|root|%s" % v)
-        pl = ev.payload_local(v)
-        oke = a["event"] == ("local", pl) or _derives_local(a["event"], pl) or (
-            a["event"][0] == "proj" and a["event"][1][0] == "call" and a["event"][1][3] == ev.read and any(e != "*" and e[0] == "dc" and e[1] == v for e in a["event"][2]))
+        oke = A.is_event(a["event"])
         ob(r, "PM2.parses-this-event", P, "%s arm" % v, oke, "tag parser receives this event's tag" if oke else "tag parser receives %s" % term_s(a["event"]), c, "PM2|event|%s" % v)
-        # result becomes the current element again
-        ok2 = _result_becomes_root(R, c)
+        ok2 = A.stores_back(c) and A.returns_root()
         ob(r, "PM2.result-is-current", ("C01", "C03", "C06"), "%s arm" % v, ok2, "the tag parser's Ok value replaces the current element" if ok2 else
            "the tag parser's result is not stored back into the current element", c, "PM2|store|%s" % v)
 
@@ -254,10 +400,11 @@ def pm5_seen_list(r, R):
     cs = R.tp_calls["Start"][0] if R.tp_calls["Start"] else None
     if cs is None:
         return
-    t = strip(term_of(b, cs.node["args"][R.tp_param["seen"] - 1]))
+    t = R.arm["Start"].seen_at_loop_level(cs)
+    cs_loop = R.arm["Start"].via or cs
     fresh = t[0] == "call" and t[1] in ("std::vec::Vec::new",) and t[3].bb not in (find_loop_of(b, R.ev.header) or (0, set()))[1]
     ob(r, "PM5b.seen-list-per-activation", P + ("C01",), R.el.name, fresh, "the seen list is a Vec::new() local created once per activation, outside the event loop" if fresh else
-       "the seen list is %s" % term_s(t), cs, "PM5b|fresh")
+       "the seen list is %s" % term_s(t), cs_loop, "PM5b|fresh")
     f = R.lib.fns[R.el.name]
     leak = [t.get("s") for t in f["inputs"] if "Vec<std::string::String>" in t.get("s", "")]
     ob(r, "PM5b.seen-list-not-inherited", P, R.el.name, not leak, "the event loop takes no seen list from its caller: nested elements start with an empty one" if not leak else
@@ -270,10 +417,11 @@ def pm5_seen_list(r, R):
             for a in c.node["args"]:
                 if is_mut_ref(arg_ty(b, a)):
                     p = mir.op_place(a)
-                    if p is not None and b.through_ref(p)["l"] == root and c.node["callee"].get("path") != R.tp.name:
+                    allowed = {R.tp.name} | {A.body.name for A in R.arm.values() if A.via is not None}
+                    if p is not None and b.through_ref(p)["l"] == root and c.node["callee"].get("path") not in allowed:
                         bad.append(c)
     ob(r, "PM5b.seen-list-only-tag-parser", P + ("C01",), R.el.name, not bad, "only the tag parser modifies the seen list" if not bad else
-       "the seen list is also modified by %s" % [cname(c.node) for c in bad], (bad or [cs])[0], "PM5b|writers")
+       "the seen list is also modified by %s" % [cname(c.node) for c in bad], (bad or [cs_loop])[0], "PM5b|writers")
     # PM5a: in the tag parser every Ok path records the name
     tp = R.tp
     seen_arg = R.tp_param["seen"]
@@ -535,8 +683,8 @@ def _arm_blocks(R, v):
 
 def pm8_start_protocol(r, R):
     """Start: snapshot -> tag parser -> demotion (iff the child pre-existed); Empty: tag parser -> demotion with empty snapshot"""
-    ev = R.ev
-    b = R.el
+    As, Ae = R.arm["Start"], R.arm["Empty"]
+    b = As.body
     P = ("C01", "C03", "C11")
     if not (len(R.tp_calls["Start"]) == 1 and len(R.tp_calls["Empty"]) == 1):
         return
@@ -545,7 +693,7 @@ def pm8_start_protocol(r, R):
     # PM8b snapshot before the tag parser, of the child with this tag's name under the current element
     a = strip(term_of(b, sn.node["args"][0]))
     ok = b.dominates(sn.bb, tp_s.bb) and sn.bb != tp_s.bb and a[0] == "call" and a[1].endswith("Element::get_child") and \
-        _is_root(R, strip(a[2][0])) and _is_event_name(R, a[2][1], "Start")
+        As.is_root(strip(a[2][0])) and As.event_name_of(a[2][1])
     ob(r, "PM8b.snapshot-before-parse", ("C03", "C01", "C06"), "Start arm", ok, "the child counts are snapshotted from current.get_child(tag name) before the element is parsed" if ok else
        "snapshot call is not get_child(current, this tag's name) taken before the tag parser (arg: %s)" % term_s(a)[:80], sn, "PM8b|snapshot")
     # demotion in Start
@@ -554,19 +702,19 @@ def pm8_start_protocol(r, R):
     why = "%d demotion call(s) in the Start arm" % len(ds)
     if okd:
         d = ds[0]
-        g = guards_of(b, d.bb, within=_arm_blocks(R, "Start"))
-        flag_ok = len(g) == 1 and g[0][2] is True and ((g[0][0] == "flag" and _flag_from_snapshot(R, g[0][1])) or
+        g = guards_of(b, d.bb, within=As.blocks)
+        flag_ok = len(g) == 1 and g[0][2] is True and ((g[0][0] == "flag" and _flag_from_snapshot(R, g[0][1], b)) or
                                                         (g[0][0] == "value" and _sn_result_field(R, g[0][1], 1)))
         after = b.dominates(tp_s.bb, d.bb)
         args = [strip(term_of(b, x)) for x in d.node["args"]]
-        snap_ok = any(_is_snapshot_map(R, x) for x in args)
-        ev_ok = any(_same_event(R, x, "Start") for x in args)
+        snap_ok = any(_is_snapshot_map(R, x, b) for x in args)
+        ev_ok = any(As.is_event(x) for x in args)
         okd = flag_ok and after and snap_ok and ev_ok
         why = "after the tag parser, exactly when the child pre-existed, with the snapshot and this event" if okd else \
             "demotion call: guard=%s (must be the pre-existence flag only), after parser=%s, snapshot passed=%s, same event=%s" % ([guard_s(x) for x in g], after, snap_ok, ev_ok)
     ob(r, "PM8a.demotion-after-repeat", P + ("C06",), "Start arm", okd, why, ds[0] if ds else tp_s, "PM8a|start")
     if ds:
-        ok2 = _result_becomes_root(R, ds[0])
+        ok2 = As.stores_back(ds[0])
         ob(r, "PM8a.demotion-result-kept", P + ("C06",), "Start arm", ok2, "the demotion step's Ok value replaces the current element" if ok2 else "demotion result is not stored back", ds[0], "PM8a|store|Start")
     # the flag in the snapshot function: true iff the child exists
     _snapshot_flag(r, R)
@@ -576,15 +724,16 @@ def pm8_start_protocol(r, R):
     why = "%d demotion call(s) in the Empty arm" % len(de)
     if oke:
         d = de[0]
-        g = guards_of(b, d.bb, within=_arm_blocks(R, "Empty"))
-        args = [strip(term_of(b, x)) for x in d.node["args"]]
+        be = Ae.body
+        g = guards_of(be, d.bb, within=Ae.blocks)
+        args = [strip(term_of(be, x)) for x in d.node["args"]]
         empty_map = any(x[0] == "call" and (_map_call(x[1], "new") or x[1] == "std::default::Default::default") for x in args)
-        oke = not g and b.dominates(tp_e.bb, d.bb) and empty_map and any(_same_event(R, x, "Empty") for x in args)
+        oke = not g and be.dominates(tp_e.bb, d.bb) and empty_map and any(Ae.is_event(x) for x in args)
         why = "after the tag parser, unconditionally, with an empty snapshot (every Mandatory child of an existing element is demoted)" if oke else \
             "Empty-arm demotion: guards=%s, empty snapshot=%s" % ([guard_s(x) for x in g], empty_map)
     ob(r, "PM11.empty-demotes", P + ("C06",), "Empty arm", oke, why, de[0] if de else tp_e, "PM11|empty")
     if de:
-        ok2 = _result_becomes_root(R, de[0])
+        ok2 = Ae.stores_back(de[0])
         ob(r, "PM8a.demotion-result-kept", P + ("C06",), "Empty arm", ok2, "the demotion step's Ok value replaces the current element" if ok2 else "demotion result is not stored back", de[0], "PM8a|store|Empty")
 
 
@@ -618,8 +767,8 @@ def _sn_result_field(R, t, idx):
     return t[0] == "proj" and t[1][0] == "call" and len(t[1]) > 3 and t[1][3] == R.sn_call and any(e != "*" and e[0] == "i" and e[1] == idx for e in t[2])
 
 
-def _flag_from_snapshot(R, local):
-    b = R.el
+def _flag_from_snapshot(R, local, b=None):
+    b = b or R.el
     for d in b.defs().get(local, []):
         if d.si is not None and d.node["k"] == "assign" and d.node["rv"]["k"] == "use":
             if _sn_result_field(R, term_of(b, d.node["rv"]["op"]), 1):
@@ -627,8 +776,8 @@ def _flag_from_snapshot(R, local):
     return False
 
 
-def _is_snapshot_map(R, t):
-    b = R.el
+def _is_snapshot_map(R, t, b=None):
+    b = b or R.el
     if _sn_result_field(R, t, 0):
         return True
     if t[0] == "local":
